@@ -28,7 +28,8 @@ RULE = (
     "JSON contexts. Oracle: returns a value or raises ExpressionError and nothing else; context unchanged (deep copy); "
     "a sys.addaudithook monitor sees no event other than the `compile` of ast.parse (no exec / import / open / os.* / "
     "subprocess.* / socket.*). (c) the same expressions as OR-split conditions / stageEnabled in a running workflow "
-    "must not end the deciding stage TERMINAL. Non-trivial = graph with >= 2 stages / expression that parses; distinct "
+    "must not end the deciding stage TERMINAL, and the stored context of the guarded stage - which carries a dict-valued key "
+    "named like an upstream stage - is what was submitted (no side effect of the evaluation). Non-trivial = graph with >= 2 stages / expression that parses; distinct "
     "= (validity classes) / (top-level ast node, operator, operand types, outcome class)."
 )
 ASSUMPTIONS = ["nesting depth of generated expressions <= 40 (deeper inputs hit CPython's recursion limit, outside what the property's 'grammar' calls for)", "contexts are JSON-representable values"]
@@ -409,8 +410,11 @@ def _engine(case: dict) -> dict:
         spec = {
             "name": "c20wf",
             "stages": [
-                specs.st("a", [], [dict(specs.OK, raw={"a": 1, "d": {"k": 1}, "lst": [1, 2], "s": "x", "n": 2}, out=["a_o"])], split="OR", conds=conds),
-                specs.st("b", ["a"], ctx={"stageEnabled": {"type": "expression", "expression": enabled}, "d": {"k": 1}, "lst": [1], "s": "x"}),
+                specs.st("pre", [], [dict(specs.OK, raw={"target": "dev", "ok": True}, out=["pre_o"])]),
+                specs.st("a", ["pre"], [dict(specs.OK, raw={"a": 1, "d": {"k": 1}, "lst": [1, 2], "s": "x", "n": 2}, out=["a_o"])], split="OR", conds=conds),
+                # b's own context has a dict-valued key named like another stage ("pre"): evaluating the condition
+                # (which may refer to other stages' outputs by their reference) must leave b's context alone
+                specs.st("b", ["a", "pre"], ctx={"stageEnabled": {"type": "expression", "expression": enabled}, "d": {"k": 1}, "lst": [1], "s": "x", "pre": {"target": "prod"}}),
                 specs.st("c", ["a"]),
                 specs.st("z", ["b", "c"], join="OR"),
             ],
@@ -425,6 +429,10 @@ def _engine(case: dict) -> dict:
                 err = str((exc or {}).get("details", {}).get("error"))
                 mech = "unary-operator-on-unsupported-operand" if "unary" in err else "subscript-with-unhashable-key" if "unhashable" in err else "comparison-operator" if "byte must be" in err else "other"
                 out.append(viol(f"C20/malformed-condition-crashed-stage:{mech}", f"stage {ref} ended {st['status']} with {exc}; split conditions {conds}, stageEnabled {enabled!r}"))
+        own = run.state["stages"]["b"]["context"].get("pre")
+        obs["stage_contexts_compared_after_evaluation"] += 1
+        if own != {"target": "prod"}:
+            out.append(viol("C20/evaluation-changed-stage-context", f"stage b was submitted with context['pre'] = {{'target': 'prod'}}; after its stageEnabled expression {enabled!r} was evaluated the stored context holds {own!r}"))
         keys.add(f"w:{run.state['stages']['b']['status']}:{run.state['stages']['c']['status']}")
     return {"violations": _uniq(out), "obs": dict(obs), "keys": sorted(keys)}
 
